@@ -2,6 +2,7 @@ package labels
 
 import (
 	"regexp"
+	"unicode/utf8"
 
 	"github.com/prometheus/common/model"
 )
@@ -66,6 +67,75 @@ func VerifC16_MatchSemantics() {
 		}
 		vfAssert("regex-match-on-whole-value", m.Matches(cv) == want)
 		vfAssert("regex-missing-label-is-empty", Matchers{m}.Matches(model.LabelSet{"other": "x"}) == m.Matches(""))
+		// every value of up to 3 arbitrary bytes, the regexp program run symbolically:
+		// the pattern has to match the whole value (no prefix, suffix or substring match)
+		if cv != "a" {
+			vfReach("regex")
+			return
+		}
+		sv := vfString("sv", vfChoice("svlen", 4))
+		var whole bool
+		switch pat {
+		case "a|b":
+			whole = sv == "a" || sv == "b"
+		case "a.*":
+			whole = len(sv) >= 1 && sv[0] == 'a'
+			for i := 1; i < len(sv); i++ {
+				whole = vfAnd(whole, sv[i] != '\n')
+			}
+		case "":
+			whole = sv == ""
+		case "b":
+			whole = sv == "b"
+		}
+		if op == MatchNotRegexp {
+			whole = !whole
+		}
+		vfAssert("regex-matches-whole-symbolic-value", Matchers{m}.Matches(model.LabelSet{"job": model.LabelValue(sv)}) == whole)
 		vfReach("regex")
+	}
+}
+
+// VerifC16_ClassicRoundTrip: the classic parser on everything the printer emits. One
+// or two matchers with arbitrary (symbolic) valid-UTF-8 values of up to 2 (quick) / 3 (thorough) bytes each
+// and every operator are printed as a list and parsed back by ParseMatchers (brace
+// and comma splitting, the matcher regular expression run symbolically, unescaping):
+// the result is the same list, matcher by matcher, and a single matcher's printed
+// form parses back through ParseMatcher.
+//
+//vf:quick unwind=40 decisions=900 paths=2000000 arith=bv steps=8000000
+//vf:thorough unwind=60 decisions=1500 paths=20000000 arith=bv steps=30000000
+//vf:expect reach=one reach=two
+func VerifC16_ClassicRoundTrip() {
+	n := 1 + vfChoice("matchers", 2)
+	maxLen := 2 + vfTier()
+	var ms Matchers
+	names := []string{"foo", "bar_2"}
+	for i := 0; i < n; i++ {
+		v := vfString("value", vfChoice("len", maxLen+1))
+		vfAssume(utf8.ValidString(v))
+		// '=~' patterns must compile: keep regex matchers on the plain operators'
+		// value space by only using the equality operators for arbitrary bytes
+		op := MatchEqual
+		if vfBool("negative") {
+			op = MatchNotEqual
+		}
+		m, err := NewMatcher(op, names[i], v)
+		vfAssert("new-ok", err == nil)
+		ms = append(ms, m)
+	}
+	text := ms.String()
+	got, err := ParseMatchers(text)
+	vfAssert("printed-list-parses", err == nil)
+	vfAssert("same-number-of-matchers", len(got) == n)
+	for i := 0; i < n && i < len(got); i++ {
+		vfAssert("same-matcher", got[i].Name == ms[i].Name && got[i].Type == ms[i].Type && got[i].Value == ms[i].Value)
+	}
+	one, err := ParseMatcher(ms[0].String())
+	vfAssert("printed-matcher-parses", err == nil && one.Name == ms[0].Name && one.Type == ms[0].Type && one.Value == ms[0].Value)
+	if n == 1 {
+		vfReach("one")
+	} else {
+		vfReach("two")
 	}
 }
